@@ -562,6 +562,10 @@ def same_llsd_value(dec, exp) -> bool:
         return isinstance(dec, str) and not isinstance(dec, llsd.uri) and dec == exp
     if isinstance(exp, bytes):
         return isinstance(dec, bytes) and bytes(dec) == bytes(exp)
+    if isinstance(exp, std_uuid.UUID):
+        # the XML parser yields stdlib uuid.UUID where the message held the library's subclass; both are LLSD uuid and
+        # `==` holds between them, so "equals the original" is satisfied (triaged false alarm, see final report)
+        return isinstance(dec, std_uuid.UUID) and dec.bytes == exp.bytes
     return same_value(dec, exp)
 
 
@@ -696,11 +700,12 @@ def check_msg_case(part: Part, gen: msggen.Gen, case: dict, ser: LLSDMessageSeri
     except Exception as e:
         part.violation("msg-eq-inject", "EventQueueManager.inject_message:raises", witness, f"raised {type(e).__name__}: {e}")
     else:
+        d_ref = ser.serialize(gen.lib_message(case), as_dict=True)  # fresh output: nothing above may have aliased it
         if len(events) != 1:
             part.violation("msg-eq-inject", "EventQueueManager.inject_message:event-count", witness, f"{len(events)} events queued")
-        elif canon(events[0]) != canon(d) or events[0] != d:
+        elif canon(events[0]) != canon(d_ref) or events[0] != d_ref:
             part.violation("msg-eq-inject", "EventQueueManager.inject_message:event", witness,
-                           f"event {_short(canon(events[0]))} != serializer output {_short(canon(d))}")
+                           f"event {_short(canon(events[0]))} != serializer output {_short(canon(d_ref))}")
         names = []
         for data, _addr in transport.packets:
             try:
